@@ -33,8 +33,17 @@ def monitor_models(rep, pid, n, ndates=4, opts=None, mode="exact", known=None):
     seen = {}
     viol = 0
     stats = {"models": 0, "timesteps": 0, "classes": {}, "sizes": {}, "raised": 0}
-    for seed, size in gen_cases(f"net_{pid}", n, ndates, opts):
-        cfg = NG.gen_model(random.Random(seed), ndates=ndates, size=size, opts=opts)
+    stats["with_mixed_arc_classes"] = 0
+    stats["arc_classes"] = {}
+    for i, (seed, size) in enumerate(gen_cases(f"net_{pid}", n, ndates, opts)):
+        o = dict(opts or {})
+        if i % 3 == 2:
+            # every third model: travel-time, decaying, pull-only, push-only, sewer and weir arcs where the link allows
+            o["arc_mix"] = 0.4
+            stats["with_mixed_arc_classes"] += 1
+        cfg = NG.gen_model(random.Random(seed), ndates=ndates, size=size, opts=o)
+        for a in cfg["arcs"]:
+            stats["arc_classes"][a["type_"]] = stats["arc_classes"].get(a["type_"], 0) + 1
         mon, model, err, out = MN.run_cfg(cfg, mode, pids=(pid,))
         stats["models"] += 1
         stats["timesteps"] += mon.steps
@@ -56,7 +65,7 @@ def monitor_models(rep, pid, n, ndates=4, opts=None, mode="exact", known=None):
             viol += 1
             if viol <= 3:
                 rep.violation("counterexample", f"{pid} whole-model monitor: {msg}",
-                              {"kind_of_case": "netgen", "seed": seed, "size": size, "ndates": ndates, "opts": opts or {},
+                              {"kind_of_case": "netgen", "seed": seed, "size": size, "ndates": ndates, "opts": o,
                                "mode": mode, "config": NG.cfg_json(cfg)}, True)
     stats["violations"] = viol
     rep.monitor[f"{pid}_models_{mode}"] = stats
